@@ -175,7 +175,10 @@ def run(repo, res):
             txt = ex2.text(n.value)
             ok = 'get_marked_name(' in txt and '.flow.names_at(position)' in txt
     rets = [n for n in ast.walk(assist) if isinstance(n, ast.Return)]
-    ok = ok and any('sorted(names)' in unparse(r.value) for r in rets if r.value is not None)
+    ok = ok and any(isinstance(r.value, ast.Tuple) and len(r.value.elts) == 2
+                    and 'sorted(' in unparse(r.value.elts[1]) and 'names' in {n.id for n in ast.walk(r.value.elts[1])
+                                                                              if isinstance(n, ast.Name)}
+                    for r in rets if r.value is not None)
     res.check('C01-R6', 'assist name branch', ok, ASSIST, assist.lineno,
               "assist's name branch must propose the keys of names_at(position) of the marked read's region")
     res.assumptions.extend([
